@@ -128,6 +128,7 @@ def run(tier):
     rule_R6(res, prog)
     rule_R7(res, prog)
     rule_R8(res, prog)
+    rule_R9(res, prog)
     return res.finish()
 
 
@@ -644,6 +645,7 @@ def rule_R8(res, prog):
     rid = "C15.R8"
     res.rule(rid, "skipped early data: the running total is compared with the limit after the current record was added, tolerated side <= limit")
     fn = prog.fn("matrixSslDecodeTls13")
+    gf8 = cu.guard_facts(fn)
     n = 0
 
     def counts(x):
@@ -670,4 +672,90 @@ def rule_R8(res, prog):
             f_ = Finding(PROP, rid, fn.name, "early-data skip budget compared before counting",
                          "%s:%s matrixSslDecodeTls13(): %s" % (fn.relfile, t["ln"], "; ".join(why)), file=fn.relfile, line=t["ln"])
         res.instance(rid, "matrixSslDecodeTls13:%s skip budget judged on the total including the current record" % t["ln"], not why, finding=f_)
+    # the amount counted for a skipped record is never negative: a subtraction from the record length is added only under
+    # a branch fact that the record is longer than what is subtracted
+    for b in fn.blocks:
+        for i, ln, x in cu.block_exprs(b):
+            for m in walk(x):
+                if m.get("k") == "bin" and m["op"] == "+=" and (strip(m["l"]) or {}).get("f") == "tls13ReceivedEarlyDataLen":
+                    r = strip(m["r"])
+                    while r is not None and r.get("k") == "cast":
+                        r = strip(r["e"])
+                    if r is None or not any(q.get("k") == "bin" and q["op"] == "-" for q in walk(r)):
+                        continue
+                    n += 1
+                    facts = gf8.get(b["id"], ())
+                    ok = any((re.match(r"^\(ssl->rec\.len > .*\)$", txt) and tr) or (re.match(r"^\(ssl->rec\.len <= .*\)$", txt) and not tr)
+                             for (txt, tr) in facts)
+                    f_ = None
+                    if not ok:
+                        f_ = Finding(PROP, rid, fn.name, "skipped-record budget can be given back",
+                                     "%s:%s matrixSslDecodeTls13(): tls13ReceivedEarlyDataLen += %s without a branch fact that the record is longer "
+                                     "than what is subtracted: a record shorter than tag + 1 adds a negative amount to the unsigned counter, so "
+                                     "alternating long and short garbage records never reach the configured limit" % (
+                                         fn.relfile, ln, cu.ftext(r)[:50]), file=fn.relfile, line=ln)
+                    res.instance(rid, "matrixSslDecodeTls13:%s amount counted for a skipped record is not negative" % ln, ok, finding=f_)
+    res.floor(rid, 2)
+
+
+def rule_R9(res, prog):
+    """RFC 8446 5.1: a protected record whose inner content type is not handshake, application_data or alert is an
+    unexpected message - an error, not a success.  In matrixSslDecodeTls13, from the read of the inner type out of the
+    decrypted record no path reaches a success return (MATRIXSSL_SUCCESS) without a branch outcome `innerType == <one of the
+    three legal types>`; outcomes that contradict the facts holding at the read (`records are being decrypted`) are not
+    paths of that record."""
+    import re
+    from sa import cfgutil as cu
+    rid = "C15.R9"
+    res.rule(rid, "TLS 1.3: a decrypted record with an inner content type other than handshake / application_data / alert never ends in a success return")
+    fn = prog.fn("matrixSslDecodeTls13")
+    LEGAL = set(prog.const(n_) for n_ in ("SSL_RECORD_TYPE_HANDSHAKE", "SSL_RECORD_TYPE_APPLICATION_DATA", "SSL_RECORD_TYPE_ALERT"))
+    gf = cu.guard_facts(fn)
+    sites = []
+    for b in fn.blocks:
+        for i, ln, x in cu.block_exprs(b):
+            for m in walk(x):
+                if m.get("k") == "bin" and m["op"] == "=" and (strip(m["l"]) or {}).get("n") == "innerType":
+                    r = strip(m["r"])
+                    while r is not None and r.get("k") == "cast":
+                        r = strip(r["e"])
+                    if r is not None and r.get("k") == "un" and r["op"] == "*":
+                        sites.append((b["id"], i, ln))
+    for (bid, idx, ln) in sites:
+        start_facts = set(gf.get(bid, ()))
+
+        def legal_or_contradiction(b, k, start_facts=start_facts):
+            t = b.get("term")
+            if t is None or "c" not in t or len(b["succ"]) != 2:
+                return False
+            for (txt, tr, nd) in cu._cond_atoms(t["c"], k == 0):
+                mm = re.match(r"^\(innerType == (\d+)\)$", txt)
+                if mm and tr and int(mm.group(1)) in LEGAL:
+                    return True
+                # session-state conditions only (DECRYPTING_RECORDS): facts about locals may be stale after the read
+                if (txt, not tr) in start_facts and "ssl->" in txt and not re.search(r"(?<![\w>.])(rc|p|ptLen|innerType)(?![\w])", txt):
+                    return True
+            return False
+
+        def success(x):
+            if x.get("k") != "ret" or x.get("e") is None:
+                return False
+            e = strip(x["e"])
+            return e is not None and e.get("k") == "int" and e["v"] == 0
+        NONE_ = prog.const("SSL_ALERT_NONE")
+
+        def raises_alert(x):
+            # ssl->err = <an alert>: the path goes on to encodeResponse, which queues the alert and flags the session (C15.R2)
+            return any(m.get("k") == "bin" and m["op"] == "=" and (strip(m["l"]) or {}).get("f") == "err" and
+                       (strip(m["r"]) or {}).get("k") == "int" and strip(m["r"])["v"] != NONE_ for m in walk(x))
+        esc = cu.escapes(fn, (bid, idx), raises_alert, exempt_edge=legal_or_contradiction, target_expr=success)
+        f_ = None
+        if esc is not None:
+            f_ = Finding(PROP, rid, fn.name, "illegal inner content type ends in success",
+                         "%s:%s matrixSslDecodeTls13(): from the inner content type read at line %s a path (lines %s) reaches `return "
+                         "MATRIXSSL_SUCCESS` without the type having compared equal to handshake, application_data or alert: a protected "
+                         "record of any other type (24, change_cipher_spec, ..) is swallowed - no unexpected_message alert, session not "
+                         "flagged, later records delivered" % (fn.relfile, esc[-1][1], ln, [p_[1] for p_ in esc[-6:-1]]),
+                         file=fn.relfile, line=esc[-1][1])
+        res.instance(rid, "matrixSslDecodeTls13:%s inner type read -> no success return without a legal type" % ln, esc is None, finding=f_)
     res.floor(rid, 1)
